@@ -98,8 +98,24 @@ def gen_vector(rng, maxfiles=6, allow_empty=False):
     n = rng.randint(lo, maxfiles)
     v = []
     for _ in range(n):
-        if v and rng.random() < 0.15:
-            name = rng.choice(v)[0]        # the same file name twice (two directories)
+        if v and rng.random() < 0.25:
+            prev = rng.choice(v)           # the same file name twice (two directories)
+            name = prev[0]
+            q = rng.random()
+            if q < 0.5:
+                # ... with line sets that agree on their first line(s) and differ later: an order that looks at a
+                # prefix of the line set only cannot tell them apart
+                k = rng.randint(1, len(prev[1]))
+                top = prev[1][k - 1]
+                tail = sorted(set(rng.randint(top + 1, top + 60) for _ in range(rng.randint(1, 3)))) if top < 2 ** 31 - 100 else []
+                ls = prev[1][:k] + tail
+                if ls == prev[1]:
+                    ls = prev[1] + [prev[1][-1] + 1] if prev[1][-1] < 2 ** 31 - 1 else prev[1]
+                v.append([name, ls])
+                continue
+            if q < 0.6:
+                v.append([name, list(prev[1])])     # an identical entry (identical copies of a file)
+                continue
         else:
             name = gen_name(rng)
         v.append([name, gen_lines(rng)])
@@ -212,9 +228,9 @@ def reorder(rng, case):
 # ----------------------------------------------------------------------------- implementation
 def protocol(case, allfile_dir=None):
     mode = case['mode']
-    L = ['case %s%s' % (mode, (' ' + allfile_dir) if mode == 'allfile' else '')]
+    L = ['case %s%s' % (mode, (' ' + allfile_dir) if mode in ('allfile', 'allfilestale') else '')]
     for cat in CATS:
-        if mode in ('all', 'allfile') or mode == cat:
+        if mode in ('all', 'allfile', 'allfilestale') or mode == cat:
             for p, v in case['maps'].get(cat, []):
                 L.append('pat %s %s' % (cat, p))
                 for f, ls in v:
@@ -316,7 +332,7 @@ def coq_impl(b):
 
 def case_expr(case, out):
     wf = 'true' if case['wf'] else 'false'
-    if case['mode'] in ('all', 'allfile'):
+    if case['mode'] in ('all', 'allfile', 'allfilestale'):
         return 'check_all %s %s %s %s (%s) %d' % (wf, coq_findings('vul', case['maps']['vul']), coq_findings('opt', case['maps']['opt']),
                                                   coq_findings('qa', case['maps']['qa']), coq_impl(out), digest(out))
     cat = case['mode']
